@@ -99,6 +99,9 @@ pub mod traits;
 /// Verification hooks (step-driven path set with injected clock); off by default.
 #[cfg(feature = "verif-hooks")]
 pub mod verif;
+/// Verification hooks (handle of a managed pair, handshake state); off by default.
+#[cfg(feature = "verif-hooks")]
+pub mod verif_sched;
 
 /// Configuration for the `MultiPathManager`.
 #[derive(Debug, Clone, Copy)]
